@@ -91,6 +91,8 @@ def scenarios():
     add('S2 hungarian score||score first-call', [], [_call(hs, 'M', 'OUT', '100', 10.5), _call(hs, 'F', 'OUT', 'LJ', 6.5)], bound=(1, 2))
     add('S2 hungarian score||score warmed-up', [_call(hs, 'M', 'OUT', '200', 21)],
         [_call(hs, 'M', 'OUT', '100', 10.5), _call(hs, 'F', 'OUT', 'LJ', 6.5)])
+    add('S2 hungarian M || mixed gender X first-call', [], [_call(hs, 'M', 'OUT', '100', 10.5), _call(hs, 'X', 'OUT', 'LJ', 7.5)], bound=(1, 2))
+    add('S2 hungarian X || X warmed-up', [_call(hs, 'M', 'OUT', '200', 21)], [_call(hs, 'X', 'OUT', '100', 10.5), _call(hs, 'X', 'IN', '60', 7.0)], bound=(1, 2))
     # S3 Sportshall
     ss = a.sportshall_score
     add('S3 sportshall||sportshall first-call', [], [_call(ss, 'SLJ', '1.50'), _call(ss, '100', '30.0')], tiers=('thorough',), bound=(1, 1))
@@ -122,6 +124,14 @@ def scenarios():
         tiers=('thorough',), bound=(1, 1))
     add('S4 three threads on one grader warmed-up', [_call(af, 'm', 40, 'HJ')],
         [_call(af, 'm', 50, 'HJ'), _call(af, 'f', 62, 'PV'), _call(wb, 'm', 'LJ')], tiers=('thorough',), bound=(1, 2))
+    # S8 the junior scoring functions (no shared state on the pinned tree; they are scoring functions all the same)
+    ty, qk, bg = a.tyrving_score, a.qkids_score, a.bulgarian_score
+    add('S8 tyrving same event hand-timed || automatic first-call', [], [_call(ty, 'F', 15, '100', '13.0'), _call(ty, 'F', 15, '100', '13.00')], bound=(2, 2))
+    add('S8 tyrving same event hand-timed || automatic warmed-up', [_call(ty, 'F', 14, '100', '13.5')], [_call(ty, 'F', 15, '100', '13.0'), _call(ty, 'F', 15, '100', '13.00')], bound=(2, 2))
+    add('S8 tyrving run || jump warmed-up', [_call(ty, 'F', 14, '100', '13.5')], [_call(ty, 'M', 16, '200', '24.5'), _call(ty, 'F', 13, 'HJ', 1.45)], bound=(1, 2))
+    add('S8 qkids same event || same event first-call', [], [_call(qk, 'QKSEC', '100', 15.5), _call(qk, 'QKSEC', '100', '14.2')], bound=(2, 2))
+    add('S8 qkids || qkids warmed-up', [_call(qk, 'QKSEC', '100', 15.5)], [_call(qk, 'QKSEC', '800', '2:50.0'), _call(qk, 'QKPRI', 'SLJ', 1.5)], bound=(1, 2))
+    add('S8 bulgarian || bulgarian first-call', [], [_call(bg, 'U16', 'M', '100', 12.5), _call(bg, 'U16', 'F', 'LJ', 4.5)], bound=(1, 2))
     # S6 different graders (different table files) loading and working at the same time
     add('S6 athlon score with age || wma_age_factor first-call', [], [_call(sc, 'M', '100', 12.5, 52), _call(af, 'm', 52, '200')], bound=(1, 2))
     add('S6 wma_age_factor 2015 || 2023 first-call', [], [_call(af, 'm', 50, '55H', year=2015), _call(af, 'f', 62, '60H', year=2023)], bound=(1, 2))
